@@ -194,10 +194,19 @@ func c07Replay(args []string) int {
 			}
 			for di, ds := range declSets {
 				var elems []string
+				// "a default is declared": either `default` or its older spelling `empty_if_missing` (= default "")
+				dfltText := "DEFAULT"
+				if (di+len(input))%2 == 1 {
+					dfltText = ""
+				}
 				for k, d := range ds {
 					e := fmt.Sprintf(`{"name": "e%d", "index": %d, "component_index": %d`, k+1, d[0], d[1])
 					if d[2].(bool) {
-						e += `, "default": "DEFAULT"`
+						if dfltText == "" {
+							e += `, "empty_if_missing": true`
+						} else {
+							e += `, "default": "DEFAULT"`
+						}
 					}
 					elems = append(elems, e+"}")
 				}
@@ -266,7 +275,7 @@ func c07Replay(args []string) int {
 						var vals []interface{}
 						for _, v := range vs.([]interface{}) {
 							if s, isStr := v.(string); isStr && s == "DEFAULT" {
-								vals = append(vals, "DEFAULT")
+								vals = append(vals, dfltText)
 								continue
 							}
 							syms, _ := v.([]interface{})
